@@ -119,21 +119,16 @@ Proof.
     destruct Hor as [Hp|He]; [rewrite Hp | cbn in He; rewrite He, andb_false_r]; reflexivity.
 Qed.
 
-(** fail: the appended condition makes the replica set failed unless an earlier Canary-Failed entry that is
-    not true shadows it (first match wins: corner D13, only for a replica set that was active before) *)
-Theorem fail_is_seen : forall cs now,
-  (get_cond cs CT_CanaryFailed = None \/ is_cond_true cs CT_CanaryFailed = true) ->
-  is_cond_true (fail_conds cs now) CT_CanaryFailed = true.
-Proof.
-  intros cs now [Hn|Ht]; unfold is_cond_true, fail_conds.
-  - erewrite get_cond_app_none; [reflexivity | exact Hn | reflexivity].
-  - unfold is_cond_true in Ht. destruct (get_cond cs CT_CanaryFailed) as [c|] eqn:E; [|discriminate].
-    assert (Hg : get_cond (cs ++ [MkCond CT_CanaryFailed CTrue now now R_MANUAL M_EMPTY]) CT_CanaryFailed = Some c).
-    { clear Ht. unfold get_cond in *. induction cs as [|x r IH]; [discriminate|]. simpl in *.
-      destruct (cond_has_type CT_CanaryFailed x); [assumption | apply IH; assumption]. }
-    rewrite Hg. exact Ht.
-Qed.
+(** fail: after the command the replica set reads as failed, whatever conditions it carried (repaired defect D13) *)
+Theorem fail_is_seen : forall cs now, is_cond_true (fail_conds cs now) CT_CanaryFailed = true.
+Proof. intros cs now. unfold fail_conds. rewrite is_cond_true_update_same. reflexivity. Qed.
 
-Theorem fail_shadowed_refuted :
-  exists cs now, is_cond_true (fail_conds cs now) CT_CanaryFailed = false.
+(** ... and no condition of another type is touched *)
+Theorem fail_frame : forall cs now t, t <> CT_CanaryFailed -> get_cond (fail_conds cs now) t = get_cond cs t.
+Proof. intros cs now t H. unfold fail_conds. apply get_cond_update_other. exact H. Qed.
+
+(** before the repair the entry was appended: an earlier Canary-Failed entry that is not True shadowed it (the first
+    match wins) - the command reported success and no rollback followed *)
+Theorem fail_shadowed_before_fix :
+  exists cs now, is_cond_true (fail_conds_before_fix cs now) CT_CanaryFailed = false.
 Proof. exists [MkCond CT_CanaryFailed CFalse 0 0 0%N 0%N], 5. reflexivity. Qed.
